@@ -1,5 +1,6 @@
 import MsiModel.Wire
 import MsiModel.Expr
+import MsiModel.Column
 /-
 Wire format of values, rows and expressions (prefix form), for the driver.
 -/
@@ -75,5 +76,77 @@ def resValueTok : Res Value → String
   | .ok v => valueTok v
   | .err k => "err " ++ k.toString
   | .panic _ => "panic"
+
+end MsiModel.WireExpr
+
+namespace MsiModel.WireExpr
+open MsiModel
+
+def splitOnChar (sep : Char) (s : String) : List String :=
+  (Category.splitOn sep s.toList).map String.ofList
+
+/-- parse `name:type:flags:range:fk:cat:enum` -/
+def parseColumn (t : String) : Option Column :=
+  match splitOnChar ':' t with
+  | [n, ty, fl, rg, fk, cat, en] => do
+    let name ← Wire.strOfHex n
+    let coltype ← match ty with
+      | "i16" => some ColType.int16
+      | "i32" => some ColType.int32
+      | s => match s.toList with
+        | 's' :: ds => (String.ofList ds).toNat?.map ColType.str
+        | _ => none
+    let range ← if rg = "-" then some none else
+      match splitOnChar ',' rg with
+      | [a, b] => do
+        let x ← a.toInt?
+        let y ← b.toInt?
+        pure (some (Int32.ofInt x, Int32.ofInt y))
+      | _ => none
+    let fkv ← if fk = "-" then some none else
+      match splitOnChar ',' fk with
+      | [a, b] => do
+        let x ← Wire.strOfHex a
+        let y ← b.toInt?
+        pure (some (x, Int32.ofInt y))
+      | _ => none
+    let catv ← if cat = "-" then some none else (Category.ofVariantName cat).map some
+    let enums ← if en = "-" then some [] else (splitOnChar ',' en).mapM Wire.strOfHex
+    pure { name := name, coltype := coltype,
+           isLocalizable := fl.contains 'L', isNullable := fl.contains 'N',
+           isPrimaryKey := fl.contains 'K', valueRange := range, foreignKey := fkv,
+           category := catv, enumValues := enums }
+  | _ => none
+
+def columnTok (c : Column) : String :=
+  let ty := match c.coltype with
+    | .int16 => "i16" | .int32 => "i32" | .str n => s!"s{n}"
+  let fl0 := (if c.isLocalizable then "L" else "") ++ (if c.isNullable then "N" else "") ++
+    (if c.isPrimaryKey then "K" else "")
+  let fl := if fl0 = "" then "-" else fl0
+  let rg := match c.valueRange with
+    | some (a, b) => s!"{a.toInt},{b.toInt}" | none => "-"
+  let fk := match c.foreignKey with
+    | some (t, i) => s!"{Wire.hexOfStr t},{i.toInt}" | none => "-"
+  let cat := match c.category with
+    | some k => k.variantName | none => "-"
+  let en := if c.enumValues.isEmpty then "-" else
+    ",".intercalate (c.enumValues.map Wire.hexOfStr)
+  s!"{Wire.hexOfStr c.name}:{ty}:{fl}:{rg}:{fk}:{cat}:{en}"
+
+def hexUpperDigit (n : Nat) : Char :=
+  if n < 10 then Char.ofNat (48 + n) else Char.ofNat (55 + n)
+
+/-- `Value::from(Uuid)`: braces, hyphenated, upper case; argument = 32 hex digits -/
+def guidValue (hex : List Char) : Option (List Char) := do
+  let ns ← hex.mapM Wire.hexVal
+  if ns.length ≠ 32 then none else
+  let d := ns.map hexUpperDigit
+  pure (['{'] ++ d.take 8 ++ ['-'] ++ (d.drop 8).take 4 ++ ['-'] ++ (d.drop 12).take 4 ++ ['-'] ++
+    (d.drop 16).take 4 ++ ['-'] ++ d.drop 20 ++ ['}'])
+
+/-- `Value::from(&[Language])`: decimal codes joined by commas -/
+def langsValue (codes : List Nat) : List Char :=
+  List.intercalate [','] (codes.map fun c => (toString c).toList)
 
 end MsiModel.WireExpr
